@@ -609,6 +609,15 @@ def gen_synthetic(rng, tier):
     elif r < 0.26:
         # a compaction that was under way according to the state record (cursor somewhere)
         case['raw'].append(['state', None, rng.choice([1, 2, 5]), rng.choice([0, 1, 0x7374, 0x7375, 40000, 65535])])
+    erng = random.Random(case['branch_seed'] ^ 0x5eed)        # (own stream: the cases above stay what they were)
+    if not case['raw'] and erng.random() < 0.3:
+        # the server died after a history-only flush: history rows (and a history flush count) ahead of the
+        # UTXO state when the script starts.  They are uncommitted; every start - the script's too - removes them
+        ex = {}
+        for hx in erng.sample(hxs, min(len(hxs), erng.choice([1, 1, 2, 3]))):
+            k = erng.choice([1, 2, maxrow, maxrow + 1]) if not big else erng.choice([1, 3])
+            ex[hx.hex()] = [tx + i for i in sorted(erng.sample(range(k + 2), k))]
+        case['excess'] = ex
     return case
 
 
@@ -663,6 +672,13 @@ def run_synthetic(res, case, label):
         run.expect = {hx: txnums(real, hx) for hx in watch}
         for hx in watch:
             run.emit(f'TXNUMS {be(hx)} -', fmt_nums(run.expect[hx]), 'q')
+        if case.get('excess'):
+            flb = {bytes.fromhex(k): v for k, v in case['excess'].items() if v}
+            unf = real_hflush(real, flb)                   # ... and the process dies: no UTXO flush follows
+            run.emit('HFLUSH ' + canon_unf(unf), 'ok')
+            run.emit('DUMPH', dumph_open(real.db), 'dump')
+            run.next_tx = max(run.next_tx, max(n for v in flb.values() for n in v) + 1)
+            res.bump('cases_with_uncommitted_history_rows_when_the_script_starts')
         prefixes = {}
         for hx in hxs:
             prefixes.setdefault(hx[:2], []).append(hx)
